@@ -6,7 +6,9 @@ user-defined index registry in step, and (iii) no error return separates a row m
 user-index maintenance.  Does NOT decide that the maintenance computes the right keys.
 (R7) functions that look a table up by name fall back to the schema-qualified key; (R8) every access of a
 table's primary-key / unique hash index is keyed in the index's own column order; (R9) which hash index an
-UPDATE affects is decided existentially over the index's columns."""
+UPDATE affects is decided existentially over the index's columns; (R10) in the hash-index maintenance for UPDATE
+(table::indexes::IndexManager::update_for_update / update_selective) whether the NEW key enters an index is not decided by
+the NULL-ness of the OLD key: a row whose unique key goes from NULL to a value must be indexed."""
 from ..engine.callgraph import CallGraph
 from ..engine.paths import (Follow, ok_exit_reachable, err_exits_reachable, search, succ_of_call,
                             success_starts, err_origin, none_edges)
@@ -307,3 +309,40 @@ def run(ctx):
 
     ctx.assumptions.append('a `for` loop entered after the mutation iterates at least once (collect-then-apply idiom)')
     ctx.assumptions.append('the maintenance calls compute correct keys and positions (value-level; not decided)')
+
+
+_run_main = run
+
+
+def run(ctx):
+    _run_main(ctx)
+    new_key_insert_rule(ctx)
+
+
+def new_key_insert_rule(ctx):
+    """(R10) insertion of the new key is independent of the old key's NULL test"""
+    import re
+    from ..engine.symexpr import Sym
+    from . import shared
+    prog = ctx.prog
+    ctx.rule('C15.R10', 'table::indexes::IndexManager::update_*: no HashMap::insert of a key built from new_row is decided by a contains(<key built from old_row>, NULL) test')
+    n = 0
+    for f in prog.fns.values():
+        if not re.match(r'^vibesql_storage::table::indexes::IndexManager::update_', f.nice) or f.is_closure():
+            continue
+        s = Sym(f)
+        for i, t in f.calls():
+            cn = callee_name(t) or ''
+            if not (cn.endswith('::insert') and 'HashMap' in cn) or len(t['args']) < 2:
+                continue
+            key = s.op(t['args'][1])
+            if '(new_row)' not in key:
+                continue
+            n += 1
+            bad = [c for c, _v in shared.deciding_conditions(f, i, s) if c.startswith('contains(') and '(old_row)' in c.split(', const(')[0]]
+            k = f'R10/{f.nice.rsplit("::", 1)[1]}/{"pk" if "get_primary_key_indices" in key else "unique"}'
+            ctx.instance(k + f'@{t["l"]}', {'rule': 'C15.R10', 'fn': f.nice, 'loc': f'{f.file}:{t["l"]}', 'decided_by_old_key_null_test': bool(bad)})
+            if bad:
+                ctx.finding(k, f'{f.nice} inserts the new key into the hash index only where the OLD key contained no NULL: a row whose unique key is updated from NULL to a value '
+                            'is never indexed, and a later INSERT/UPDATE with the same key is accepted', f'{f.file}:{t["l"]}')
+    ctx.floor('C15.R10 new-key insertions in IndexManager::update_*', n, 4)
